@@ -78,6 +78,10 @@ def analyse(case, obs):
     a["distinct_start"] = len({by[i]["start"] for i in shots})
     a["distinct_peek"] = len({tuple(by[i]["peek"]) for i in shots})
     a["distinct_probs"] = len({tuple(by[i]["probs"]) for i in shots})
+    # sampled gate matrices, position by position: every shot samples its own (all applied gates of the noisy gate set are sampled)
+    ng = min((len(by[i].get("gates", [])) for i in shots), default=0)
+    a["gate_positions"] = ng
+    a["min_distinct_gate"] = min((len({by[i]["gates"][k] for i in shots}) for k in range(ng)), default=len(shots))
     classes = {}
     for i in shots:
         classes.setdefault(by[i]["start"], []).append(i)
@@ -201,6 +205,10 @@ def oracle(case, obs, a):
                 f"{S} shots but only {nd} distinct noise realisations (generator start states {a['distinct_start']}, first outputs "
                 f"{a['distinct_peek']}, Born vectors {a['distinct_probs']}); shots with identical realisation: {shared[:6]}"
                 f"{' ...' if len(shared) > 6 else ''}; {a['workers_used']} worker process(es)")
+    if case.get("gates") is None and a.get("gate_positions") and a["min_distinct_gate"] < S:
+        return ("shots-share-noise-realisation",
+                f"{S} shots, but at some gate position only {a['min_distinct_gate']} distinct sampled matrices occur: shots replay each "
+                f"other's gate noise although their generator states differ")
     sec = obs.get("second")
     if sec:
         if sec["exception"]:
@@ -334,6 +342,14 @@ def gen_cases(ctx):
         for cpu in rng.sample(CPUS[1:], 2):
             cases.append(mk("par", S, cpu, seed=seed, family=f"par-fork-same-seed:{S}"))
         cases.append(mk("seq", S, seed=seed, family=f"par-fork-same-seed:{S}"))
+    # the gate set was sampled from directly before the run; a user-defined gate set derived from the noise-free one
+    for mode, S, cpu in ([("seq", 6, None), ("par", 6, 4)] if not ctx.thorough else [("seq", 3, None), ("seq", 9, None), ("par", 6, 4), ("par", 12, 3)]):
+        c = mk(mode, S, cpu, seed=rng.randrange(2 ** 31), circ=rng.choice(list(CIRCUITS)), family="prewarmed-gate-set")
+        c["prewarm"] = rng.randint(1, 3)
+        cases.append(c)
+        c = mk(mode, S, cpu, seed=rng.randrange(2 ** 31), circ=rng.choice(list(CIRCUITS)), family="user-gate-set")
+        c["gates"] = "noisefree-with-sampled-readout"
+        cases.append(c)
     # two runs of one simulator in one process without reseeding in between: the second run is new noise
     for mode, S, cpu in ([("par", 5, 4), ("par", 9, 3), ("seq", 4, None)] if not ctx.thorough else
                          [("par", 3, 4), ("par", 5, 4), ("par", 9, 3), ("par", 16, 10), ("seq", 2, None), ("seq", 7, None)]):
@@ -354,7 +370,7 @@ def gen_malformed(ctx):
 
 
 def public(case):
-    return {k: case[k] for k in ("mode", "S", "cpu", "seed", "circ", "nq", "ops", "start", "again") if k in case}
+    return {k: case[k] for k in ("mode", "S", "cpu", "seed", "circ", "nq", "ops", "start", "again", "prewarm", "gates") if k in case}
 
 
 def summary(case, obs, a):
